@@ -33,6 +33,12 @@ def plan(ctx):
     obs.append(Obligation("p_error.eof", "xh", "c20", "p_error_eof", timeout=T, extra={"format_stub": False}, bounds="-",
                           desc="p_error(None) reports an unexpected end of input"))
     obs += lrc_obligations(ctx, ["error_token"], prefix="lrc.")
+    from sqv.harness import txt
+    for i, prog in enumerate(txt.PROGRAMS):
+        obs.append(Obligation(f"txt.error_line.p{i}", "xh", "txt", "error_line", param={"program": i}, timeout=T * 3,
+                              bounds="one of 12 concrete programs (strings and comments containing brackets/quotes/#, nested multi-line literals, %..% names); "
+                                     "rewrite kind and position indices symbolic (finite domain enumerated through the solver, bodies run natively on the real lexer+parser)",
+                              desc=f"program {i}: stray token from 7 samples inserted at (or text truncated at) every token boundary, under LF / CRLF / ; variants: message names the reported token and 1 + number of line feeds before it"))
     return {
         "precheck": lrc_precheck,
         "obligations": obs, "uncovered": uncovered,
